@@ -130,6 +130,10 @@ pub fn serialize_witness(rln_witness: &RLNWitnessInput) -> Result<Vec<u8>> {
 pub fn deserialize_witness(serialized: &[u8]) -> Result<(RLNWitnessInput, usize)> {
     let mut all_read: usize = 0;
 
+    if serialized.len() < 3 * fr_byte_size() {
+        return Err(Report::msg("serialized witness is too short"));
+    }
+
     let (identity_secret, read) = bytes_le_to_fr(&serialized[all_read..]);
     all_read += read;
 
@@ -146,6 +150,10 @@ pub fn deserialize_witness(serialized: &[u8]) -> Result<(RLNWitnessInput, usize)
 
     let (identity_path_index, read) = bytes_le_to_vec_u8(&serialized[all_read..])?;
     all_read += read;
+
+    if serialized.len() - all_read < 2 * fr_byte_size() {
+        return Err(Report::msg("serialized witness is too short"));
+    }
 
     let (x, read) = bytes_le_to_fr(&serialized[all_read..]);
     all_read += read;
@@ -181,6 +189,11 @@ pub fn proof_inputs_to_rln_witness(
 ) -> Result<(RLNWitnessInput, usize)> {
     let mut all_read: usize = 0;
 
+    // identity_secret, id_index, user_message_limit, message_id, external_nullifier, signal_len
+    if serialized.len() < 4 * fr_byte_size() + 16 {
+        return Err(Report::msg("serialized proof input is too short"));
+    }
+
     let (identity_secret, read) = bytes_le_to_fr(&serialized[all_read..]);
     all_read += read;
 
@@ -203,6 +216,9 @@ pub fn proof_inputs_to_rln_witness(
     ))?;
     all_read += 8;
 
+    if signal_len > serialized.len() - all_read {
+        return Err(Report::msg("signal length exceeds the input size"));
+    }
     let signal: Vec<u8> = serialized[all_read..all_read + signal_len].to_vec();
 
     let merkle_proof = tree.proof(id_index)?;
